@@ -1,50 +1,45 @@
 ---- MODULE Sim_Refs ----
-(* Simulation wrapper of Refs (see Sim_Resources): parameters are drawn with RandomElement, biased
-   towards enabled instances, towards nesting, and towards moving what is referenced (or a container
-   of it); `coin` selects which few actions are offered in a step. *)
+(* Simulation wrapper of Refs (see Sim_Resources for the TLC facts behind its shape): parameters are
+   drawn at random, biased towards enabled instances, towards nesting, and towards moving what is
+   referenced (or a container of it); `coin` selects which few actions are offered in a step. *)
 EXTENDS MC_Refs
 VARIABLE hist
-Pick(S, dflt) == IF S = {} THEN dflt ELSE RandomElement(S)
+Rnd(S) == RandomElement(IF nops >= 0 THEN S ELSE {})
+Pick(S, dflt) == IF S = {} THEN dflt ELSE Rnd(S)
 SimInit == RInit /\ hist = << >>
 Cand(l) == SlotPlaces \cup StorePlaces \cup {pl \in NestedPlaces : l[pl.a] # Nowhere}
 FreeFor(u) == LET l1 == Take(loc, u) IN {pl \in Cand(l1) : Free(l1, pl, u)}
 PreferNested(S) == IF S \cap NestedPlaces # {} THEN S \cap NestedPlaces ELSE S
 Referenced == {refs[k].t : k \in {x \in RefIds : refs[x].kind = "eph"}}
-SimStep ==
-  LET live == Live(loc)
-      coin == RandomElement(1..10)
-      u    == Pick(IF coin <= 4 /\ Referenced \cap live # {} THEN Referenced \cap live ELSE live, 1)
-      v    == Pick(live, 1)
-      w    == Pick(live \cup {0}, 0)
-      nest == Pick({x \in live : loc[x].k \in Nested}, v)
-      anc  == Pick({loc[x].a : x \in {z \in Referenced \cap live : loc[z].k \in Nested}}, v)
-      ff   == FreeFor(u)
-      d1   == Pick(IF coin <= 4 THEN PreferNested(ff) ELSE ff, SlotPl(1))
-      d3   == RandomElement(SlotPlaces \cup StorePlaces)
-      d4   == Pick(FreeFor(anc) \cap (SlotPlaces \cup StorePlaces), SlotPl(1))
-      i    == RandomElement(Slots)
-      j    == RandomElement(Slots)
-      k    == RandomElement(RefIds)
-      k2   == Pick({x \in RefIds : refs[x].kind # "none"}, k)
-      a    == RandomElement(Accts)
-      p    == RandomElement(Paths)
-      y    == RandomElement(BorrowTys)
-      fn   == RandomElement(BOOLEAN)
-  IN \/ ResStepOf(Begin)
+MoveSome(u, nested, fn) == ResStepOf(Move(u, Pick(IF nested THEN PreferNested(FreeFor(u)) ELSE FreeFor(u), SlotPl(1)), fn))
+MoveOut(u, fn) == ResStepOf(Move(u, Pick(FreeFor(u) \cap (SlotPlaces \cup StorePlaces), SlotPl(1)), fn))
+S2(coin, u, v, w, nest, anc, i, j, k, k2, a, p, y, fn, d3) ==
+     \/ ResStepOf(Begin)
      \/ ((coin = 1 /\ nops >= 3) \/ nops >= MaxOps) /\ ResStepOf(Commit)
-     \/ (coin \in {1, 2} \/ live = {}) /\ ResStepOf(Create(SlotPl(i)))
-     \/ coin \in {3, 4, 5, 6} /\ ResStepOf(Move(u, d1, fn))
+     \/ (coin \in {1, 2} \/ Live(loc) = {}) /\ ResStepOf(Create(SlotPl(i)))
+     \/ coin \in {3, 4, 5, 6} /\ MoveSome(u, coin <= 4, fn)
      \/ coin = 7 /\ ResStepOf(Move(v, d3, FALSE))
      \/ coin = 8 /\ ResStepOf(Swap(i, j))
      \/ coin = 8 /\ ResStepOf(Shift(w, v, d3))
      \/ coin = 9 /\ ResStepOf(Destroy(u))
      \/ coin \in {2, 5, 9} /\ TakeRef(k, nest)
      \/ coin \in {1, 7} /\ TakeRef(k, v)
-     \/ coin \in {6, 10} /\ ResStepOf(Move(anc, d4, fn))
+     \/ coin \in {6, 10} /\ MoveOut(anc, fn)
      \/ coin = 10 /\ ResStepOf(Destroy(anc))
      \/ coin = 9 /\ Borrow(k, a, p, y)
      \/ coin \in {4, 8, 10} /\ UseRef(k2)
-     \/ ResStepOf(Peek)
+     \/ coin = 7 /\ ResStepOf(Peek)
+S1(coin, live) ==
+  S2(coin,
+     Pick(IF coin <= 4 /\ Referenced \cap live # {} THEN Referenced \cap live ELSE live, 1),
+     Pick(live, 1),
+     Pick(live \cup {0}, 0),
+     Pick({x \in live : loc[x].k \in Nested}, Pick(live, 1)),
+     Pick({loc[x].a : x \in {z \in Referenced \cap live : loc[z].k \in Nested}}, Pick(live, 1)),
+     Rnd(Slots), Rnd(Slots), Rnd(RefIds),
+     Pick({x \in RefIds : refs[x].kind # "none"}, Rnd(RefIds)),
+     Rnd(Accts), Rnd(Paths), Rnd(BorrowTys), Rnd(BOOLEAN), Rnd(SlotPlaces \cup StorePlaces))
+SimStep == S1(Rnd(1..10), Live(loc))
 SimNext == SimStep /\ hist' = Append(hist, last')
 SimSpec == SimInit /\ [][SimNext]_<<rvars, hist>>
 SimDepth == 60
